@@ -62,6 +62,17 @@ impl FrameKind for AmqpFrameKind {
     }
 
     fn parse_frame(buf: &[u8]) -> Result<AMQPFrame> {
+        // The field-table parser recurses once per nesting level of arrays and tables,
+        // at a few bytes of input per level: a frame well within frame_max can nest
+        // deeply enough to overflow this thread's stack, which takes the whole process
+        // down. Nothing legitimate nests anywhere near that deep; refuse such a frame
+        // before it reaches the parser.
+        if let Some(table) = field_table_of(buf) {
+            if nesting_exceeds(table, MAX_FIELD_NESTING) {
+                return MalformedFrameSnafu.fail();
+            }
+        }
+
         // parse is only successful if there were no errors _and_ it consumed
         // all of `buf` (Inner calls us with exactly the size of `buf` we said
         // we need from parse_size()).
@@ -72,6 +83,111 @@ impl FrameKind for AmqpFrameKind {
         }
         MalformedFrameSnafu.fail()
     }
+}
+
+// Deepest nesting of arrays / tables inside a field table that is handed to the parser.
+const MAX_FIELD_NESTING: usize = 32;
+
+// The part of a frame that starts with a field table (at its 4-byte length), for the two
+// kinds of frame a server sends that carry one: a content header with a `headers` property
+// and Connection.Start (server-properties).
+fn field_table_of(frame: &[u8]) -> Option<&[u8]> {
+    if frame.len() < 8 {
+        return None;
+    }
+    let payload = &frame[7..frame.len() - 1];
+    match frame[0] {
+        // method frame: class-id 10, method-id 10, version-major, version-minor, table
+        1 if payload.len() >= 6 && payload[..4] == [0, 10, 0, 10] => Some(&payload[6..]),
+        // content header: class-id, weight, body-size, property flags, then the
+        // properties that are present, in order: content-type, content-encoding, headers
+        2 if payload.len() >= 14 => {
+            let flags = u16::from(payload[12]) << 8 | u16::from(payload[13]);
+            // (bit 0 would announce a second flags word, which nobody sends; leave such a
+            // header to the parser alone)
+            if flags & 0x2000 == 0 || flags & 0x0001 != 0 {
+                return None;
+            }
+            let mut pos = 14;
+            for bit in &[0x8000u16, 0x4000] {
+                if flags & bit != 0 {
+                    pos += 1 + usize::from(*payload.get(pos)?);
+                }
+            }
+            payload.get(pos..)
+        }
+        _ => None,
+    }
+}
+
+// Walks the field table at the start of `buf` without recursion. Mirrors how the parser
+// treats what it cannot read (the rest of the enclosing array / table is skipped).
+fn nesting_exceeds(buf: &[u8], limit: usize) -> bool {
+    fn long_at(buf: &[u8], pos: usize) -> Option<usize> {
+        let b = buf.get(pos..pos + 4)?;
+        Some((usize::from(b[0]) << 24) | (usize::from(b[1]) << 16) | (usize::from(b[2]) << 8) | usize::from(b[3]))
+    }
+
+    // enclosing containers: (is a table, offset of its end)
+    let mut open: Vec<(bool, usize)> = Vec::new();
+    let mut pos = match long_at(buf, 0) {
+        Some(len) if 4 + len <= buf.len() => {
+            open.push((true, 4 + len));
+            4
+        }
+        _ => return false,
+    };
+    while let Some(&(is_table, end)) = open.last() {
+        if pos >= end {
+            open.pop();
+            pos = end;
+            continue;
+        }
+        // where this value ends, or None if it cannot be read inside its container
+        let value_end = (|| {
+            let mut p = pos;
+            if is_table {
+                p += 1 + usize::from(*buf.get(p)?);
+            }
+            let kind = *buf.get(p)?;
+            p += 1;
+            let end_of_value = match kind {
+                b't' | b'b' | b'B' => p + 1,
+                b'U' | b'u' => p + 2,
+                b'I' | b'i' | b'f' => p + 4,
+                b'L' | b'l' | b'd' | b'T' => p + 8,
+                b'D' => p + 5,
+                b'V' => p,
+                b's' => p + 1 + usize::from(*buf.get(p)?),
+                b'S' | b'x' => p + 4 + long_at(buf, p)?,
+                b'A' | b'F' => {
+                    let inner_end = p + 4 + long_at(buf, p)?;
+                    if inner_end > end {
+                        return None;
+                    }
+                    // descend: the value is walked, not skipped
+                    return Some((p + 4, Some((kind == b'F', inner_end))));
+                }
+                _ => return None,
+            };
+            if end_of_value > end {
+                return None;
+            }
+            Some((end_of_value, None))
+        })();
+        match value_end {
+            Some((next, Some(container))) => {
+                open.push(container);
+                if open.len() > limit {
+                    return true;
+                }
+                pos = next;
+            }
+            Some((next, None)) => pos = next,
+            None => pos = end,
+        }
+    }
+    false
 }
 
 struct Inner<Kind: FrameKind> {
